@@ -58,15 +58,23 @@ meta["demo_on_unmodified_repo"] = demo("/repo")
 meta["demo_on_seeded_tree"] = demo(wt)
 # 3. the checks against /repo + patch
 res = {}
-subprocess.run(["git", "-C", "/repo", "apply", os.path.join(dst, "patch.diff")], check=True)
+# the checks run against a scratch worktree holding /repo's HEAD + the patch (GBV_REPO): equivalent to applying the patch in /repo
+# and undoing it, but it cannot leak into other runs that are using /repo at the same time
+cw = f"/root/scratch/seedcheck_{name}"
+subprocess.run(["git", "-C", "/repo", "worktree", "add", "-f", "--detach", cw, "HEAD"], check=True, capture_output=True)
+subprocess.run(["git", "-C", cw, "apply", os.path.join(dst, "patch.diff")], check=True)
 try:
     for c in checks:
-        p = subprocess.run([os.path.join(ROOT, "check"), c, "quick"], capture_output=True, text=True, cwd=ROOT)
+        ev = os.path.join(ROOT, "evidence", f"{c}.json")
+        keep = open(ev).read() if os.path.exists(ev) else None
+        p = subprocess.run([os.path.join(ROOT, "check"), c, "quick"], capture_output=True, text=True, cwd=ROOT, env=dict(os.environ, GBV_REPO=cw))
+        if keep is not None:
+            open(ev, "w").write(keep)  # evidence files describe runs against /repo only
         sigs = [l.strip()[:260] for l in p.stdout.splitlines() if l.strip().startswith("violation [")]
         res[c] = {"rc": p.returncode, "n_signatures": len(sigs), "first": sigs[:3]}
         print(name, c, "rc=", p.returncode, sigs[:2], flush=True)
 finally:
-    subprocess.run(["git", "-C", "/repo", "checkout", "--", "."], check=True)
+    subprocess.run(["git", "-C", "/repo", "worktree", "remove", "--force", cw], capture_output=True)
 if old_meta.get("checks_quick_with_patch_applied") and old_meta["checks_quick_with_patch_applied"] != res:
     meta["checks_quick_first_evaluation"] = old_meta.get("checks_quick_first_evaluation") or {k: v["rc"] for k, v in old_meta["checks_quick_with_patch_applied"].items()}
 meta["checks_quick_with_patch_applied"] = res
